@@ -146,7 +146,7 @@ def size_of(e):
     return None
 
 
-def enclosing_stmts(body, target):
+def enclosing_stmts(body, target, into_lambdas=True):
     """Chain of statement nodes from the function body down to the statement containing `target`
     (identity comparison)."""
     path = []
@@ -155,6 +155,8 @@ def enclosing_stmts(body, target):
         if n is target:
             return True
         if not isinstance(n, dict):
+            return False
+        if not into_lambdas and n.get('k') == 'lambda':
             return False
         for c in SX.children(n):
             if go(c):
